@@ -211,6 +211,7 @@ def fingerprint(d):
   cons = d.constraints
   out.append(F(len(cons)))
   for c in cons:
+    out.append(F(1 if c['type'] == 'eq' else 0))
     for s in flows:
       put(c['fun'](s.reshape(-1) if d.shape[0] > 1 else s.reshape(n)))
   put(d.bounds)
@@ -246,6 +247,20 @@ def observe_obj(cls_name, d, passed, deep):
         continue
       if not same_value(a, b, probes):
         diffs.append(k)
+  for k in sorted(set(passed) | set(dd.keys())):       # the attributes themselves, not only what to_dict says about them
+    if deep and k in ('devices', 'device'):
+      continue
+    try:
+      a = getattr(d, k)
+    except AttributeError:
+      continue
+    try:
+      b = getattr(d2, k)
+    except AttributeError:
+      diffs.append('attribute ' + k)
+      continue
+    if not same_value(a, b, probes) and ('attribute ' + k) not in diffs:
+      diffs.append('attribute ' + k)
   if d2.id != d.id or len(d2) != len(d) or d2.shape != d.shape:
     diffs.append('id/length/shape')
   if not same_value(d.bounds, d2.bounds, probes):
